@@ -73,8 +73,9 @@ def cases(tier, seed):
     for explicit in (True, False):
         for pre in (b["preexisting"] if explicit else ["none"]):
             # (the choice of the file name does not depend on the thermalisation stage: in the thorough tier
-            # the two-stage runs, 20x the paths, are explored for the first and the .tmp-leftover scenario only)
-            for skip in ((False, True) if (tier == "quick" or pre in ("none", "out.h5+out.h5.tmp")) else (False,)):
+            # the two-stage runs, 20x the paths, are explored without pre-existing files only; the quick tier
+            # explores them for every scenario with shorter runs)
+            for skip in ((False, True) if (tier == "quick" or pre == "none") else (False,)):
                 out.append(Case(f"stop:explicit={int(explicit)}:pre={pre}:skip={int(skip)}", N=b["max_steps"], explicit=explicit, pre=pre, skip=skip, seed=seed))
     return out
 
